@@ -120,6 +120,39 @@ func checks() map[string]*Check {
 		Rule:   "puppet runs: each run = 30 InstallSnapshot sequences (two source snapshots, 1-3 chunks each, any order / duplication / wrong offsets, term lower/equal/higher, crash+restart) against a fresh real node with follower log shorter/longer/conflicting/matching at the boundary, followed by replication and vote probes whose correct answer follows from the true log; non-trivial when installs and probes happened",
 		Assume: puppetAssume})
 
+	add(&Check{ID: "C10", Level: "exploration", Props: []string{"C10"},
+		Runs: []RunSpec{
+			{Scen: "w1", Params: "snapshots=1,crash=1", Quick: 64, Thorough: 1600},
+			{Scen: "w1", Params: "snapshots=1,crash=0,voters=3,clients=6", Quick: 32, Thorough: 800},
+			{Scen: "w1", Params: "snapshots=1,crash=1,voters=1", Quick: 8, Thorough: 200},
+		},
+		NT:     func(r *Result) bool { return cnt(r, "c10.local_snapshots") > 0 && cnt(r, "fsm.apply") > 0 },
+		Rule:   "W1 schedules with snapshots on (threshold 4-30 entries, payload padding 0 B .. 3.5 chunks, four state-machine delay profiles drawn from the seed); every locally taken snapshot is decoded at Close and compared with the canonical history at its label; every Apply is followed by a comparison of the replica state with the canonical state; every Restore is compared with a completed snapshot. Non-trivial: snapshots were taken while operations were applied",
+		Assume: clusterAssume})
+	m["C11"].Runs = append(m["C11"].Runs, RunSpec{Scen: "w1", Params: "snapshots=1,crash=1", Quick: 48, Thorough: 1200})
+	m["C11"].NT = func(r *Result) bool {
+		if r.Scen == "puppet.is" {
+			return cnt(r, "c11.probes") > 0 && cnt(r, "msg.IS") > 0
+		}
+		return cnt(r, "log.compact")+cnt(r, "log.discard") > 0
+	}
+	m["C11"].Rule += "; cluster runs (W1, snapshots on): non-trivial when a compaction or a discard happened"
+	m["C11"].Assume = append(m["C11"].Assume, clusterAssume...)
+	m["C07"].Runs = append(m["C07"].Runs, RunSpec{Scen: "w1", Params: "snapshots=1,crash=1", Quick: 32, Thorough: 800})
+	m["C01"].Runs = append(m["C01"].Runs, RunSpec{Scen: "w1", Params: "snapshots=1,crash=1", Quick: 32, Thorough: 800})
+
+	// directed choreographies (W2)
+	app := func(id string, rs ...RunSpec) { m[id].Runs = append(m[id].Runs, rs...) }
+	app("C01", RunSpec{Scen: "w2.takeover", Quick: 24, Thorough: 600}, RunSpec{Scen: "w2.figure8", Quick: 16, Thorough: 400})
+	app("C02", RunSpec{Scen: "w2.votes", Quick: 32, Thorough: 800})
+	app("C03", RunSpec{Scen: "w2.deposed", Quick: 24, Thorough: 600}, RunSpec{Scen: "w2.bounce", Quick: 16, Thorough: 400}, RunSpec{Scen: "w2.takeover", Quick: 16, Thorough: 400})
+	app("C04", RunSpec{Scen: "w2.exacthalf", Quick: 16, Thorough: 400}, RunSpec{Scen: "w2.acklose", Quick: 24, Thorough: 600})
+	app("C05", RunSpec{Scen: "w2.deposedread", Params: "opcap=2000", Quick: 24, Thorough: 600}, RunSpec{Scen: "w2.staleround", Params: "opcap=2000", Quick: 24, Thorough: 600},
+		RunSpec{Scen: "w2.freshread", Params: "opcap=4000,applyin=300", Quick: 16, Thorough: 400}, RunSpec{Scen: "w1", Params: "crash=1,reads=1,applyin=400,voters=3", Quick: 24, Thorough: 600})
+	app("C06", RunSpec{Scen: "w2.takeover", Quick: 24, Thorough: 600})
+	app("C07", RunSpec{Scen: "w2.takeover", Quick: 24, Thorough: 600}, RunSpec{Scen: "w2.figure8", Quick: 24, Thorough: 600}, RunSpec{Scen: "w2.acklose", Quick: 16, Thorough: 400})
+	app("C08", RunSpec{Scen: "w2.votes", Quick: 24, Thorough: 600})
+
 	storeAssume := []string{
 		"crash model: process death — every completed write(2) persists, in order; images are synthesised by replaying the strace-recorded syscalls (self-validated: the full replay must be byte-identical to the directory the workload left)",
 		"byte prefixes of a write: all when <= 128 bytes, else the first/last 8 and every 64th",
